@@ -46,6 +46,17 @@ def groove_oracle(chk, name, kw, g):
                 i = int(np.argmax(np.abs(got - asfloat))) if got.shape == asfloat.shape else 0
                 return chk.fail('depth-type', f"{name}{kw}: local_depth at z={whole[i]} given as {label} is {got.flat[i] if got.size else got!r}, "
                                 f"given as float it is {asfloat[i]:.9g}", data)
+    # the polyline as a curve: every point of the graph of the depth function lies on the polyline up to the discretisation of the arcs
+    # (arcs are sampled evenly in z, Config.GROOVE_RADIUS_POINT_COUNT points each: the chord error stays below one per cent of the groove size)
+    from shapely.geometry import LineString, Point
+    line = LineString(cp)
+    zs_ = np.linspace(-g.z1, g.z1, 801)
+    ds_ = np.asarray(g.local_depth(zs_), dtype=float)
+    far = max(((line.distance(Point(z, y)), z, y) for z, y in zip(zs_, ds_)), key=lambda t: t[0])
+    chk.cov['evaluations'] += len(zs_)
+    if far[0] > 1e-2 * size:
+        return chk.fail('polyline-off-depth', f"{name}{kw}: the point ({far[1]:.6g}, {far[2]:.6g}) of the depth function is {far[0]:.3g} away from the contour "
+                        f"polyline (groove size {size:.6g}): polyline and depth function describe different shapes", data)
     # continuity inside the groove: dense scan, no jump larger than what the steepest admissible slope explains
     zs = np.linspace(-g.z0, g.z0, 4001)
     d = np.array([float(g.local_depth(z)) for z in zs])
@@ -323,6 +334,21 @@ def run(chk):
                     from pyroll.core import RoundGroove
                     other = RoundGroove(r1=0.05 * sz, r2=0.6 * sz, depth=(0.55 if built % 2 else 0.2) * sz)     # deeper or shallower than g
                     roll_oracle(chk, name, kw2, g, rng, other)
+    # sharp corners: the generic class with r1 = 0 and / or r2 = 0 (a ground corner without rounding), with and without even ground
+    from pyroll.core import GenericElongationGroove
+    for kw in (dict(r1=1, r2=0, usable_width=20, ground_width=10, even_ground_width=10, depth=5),
+               dict(r1=0, r2=0, usable_width=20, ground_width=10, even_ground_width=10, depth=5),
+               dict(r1=0, r2=0, usable_width=20, ground_width=10, even_ground_width=4, depth=5),
+               dict(r1=2, r2=3, usable_width=30, ground_width=12, even_ground_width=12, depth=6),
+               dict(r1=1, r2=0, usable_width=20, ground_width=0, even_ground_width=0, depth=5)):
+        if chk.failures:
+            break
+        try:
+            g = GenericElongationGroove(**kw)
+        except Exception:
+            continue
+        built += 1
+        groove_oracle(chk, 'GenericElongationGroove', kw, g)
     # spline grooves behind rolls: the roll representations are class independent
     from pyroll.core import SplineGroove
     for pts in ([(-3, 0), (-2, 0), (-1, 1), (1, 1), (2, 0), (3, 0)], [(-2.5, 0), (-2, 0), (-1.5, 1.5), (0.5, 0.5), (2, 0), (2.5, 0)]):
